@@ -300,6 +300,10 @@ class AsyncIOClient(ABC):
         await self._update_state(State.CLOSED)
         if self.writer:
             self.writer.close()
+            transport = getattr(self.writer, "transport", None)
+            if transport is not None and transport.get_write_buffer_size() > 0:
+                # the peer does not read: do not wait for the write buffer to drain before the link is shut
+                transport.abort()
         # close() may be called from a callback, i.e. from inside one of the background tasks: that task
         # ends by itself once the state is CLOSED and must not be cancelled from within
         current_task = asyncio.current_task()
